@@ -30,7 +30,8 @@ def gen_case(rng):
     dist = rng.choice(['empty', 'single', 'sparse', 'lognormal', 'huge-range', 'uniform', 'ones'])
     gro = rng.choice(['1/R', '1/R', 'signchange', 'zeros', 'allneg', 'allpos', 'random', 'some-zero'])
     nuc = rng.choice(['inside', 'inside', 'inside', 'on-boundary', 'below', 'above', 'zero-rate'])
-    return dict(n=n, cmin=cmin, cmax=cmax, dist=dist, gro=gro, nuc=nuc,
+    hist = rng.choice(['fresh', 'fresh', 'fresh', 'remesh', 'add', 'revert', 'recorded', 'recorded-load'])
+    return dict(n=n, cmin=cmin, cmax=cmax, dist=dist, gro=gro, nuc=nuc, hist=hist,
                 s=rng.getrandbits(32), dtmul=10 ** rng.uniform(-3, 1), ratio=rng.choice([0.4, 0.4, 0.5, 0.25, 0.1]),
                 maxdiss=rng.choice([1e-3, 0.01, 0.1, 0.0]))
 
@@ -40,7 +41,36 @@ def build(case):
     from kawin.precipitation.PopulationBalance import PopulationBalanceModel
     r = np.random.default_rng(case['s'])
     n = case['n']
-    pbm = PopulationBalanceModel(cMin=case['cmin'], cMax=case['cmax'], bins=n)
+    pbm = PopulationBalanceModel(cMin=case['cmin'], cMax=case['cmax'], bins=n, minBins=max(1, n // 2), maxBins=3 * n + 40)
+    # the transport functions must work on whatever grid the object currently holds: reach the grid through public
+    # grid operations as well (re-mesh, extension, backup/revert, restoring a recorded distribution), not only by construction
+    h = case.get('hist', 'fresh')
+    if h == 'remesh':
+        pbm.changeSizeClasses(case['cmin'] * r.uniform(0.5, 2), case['cmax'] * r.uniform(0.5, 3), max(1, int(n * r.uniform(0.4, 2.0))))
+    elif h == 'add':
+        pbm.addSizeClasses(int(r.integers(1, 20)))
+    elif h == 'revert':
+        pbm.createBackup()
+        pbm.changeSizeClasses(case['cmin'], case['cmax'] * 4, max(1, n // 2))
+        pbm.revert()
+    elif h in ('recorded', 'recorded-load'):
+        pbm.enableRecording()
+        pbm.PSD = np.full(pbm.bins, 1e10); pbm.record(1.0)
+        pbm.changeSizeClasses(case['cmin'], case['cmax'] * 3, max(1, (2 * n) // 3))
+        pbm.PSD = np.full(pbm.bins, 1e10); pbm.record(2.0)
+        if h == 'recorded-load':
+            import tempfile, os, io, contextlib
+            d = tempfile.mkdtemp(prefix='c07_')
+            try:
+                pbm.saveRecordedPSD(os.path.join(d, 'psd'))
+                pbm = PopulationBalanceModel()
+                pbm.loadRecordedPSD(os.path.join(d, 'psd.npz'))
+            finally:
+                import shutil; shutil.rmtree(d, ignore_errors=True)
+        import io, contextlib
+        with contextlib.redirect_stdout(io.StringIO()):
+            pbm.setPSDtoRecordedTime(0.5)
+    n = case['n'] = int(pbm.bins)
     R = pbm.PSDsize
     d = case['dist']
     if d == 'empty':
@@ -148,8 +178,8 @@ def corr(ctx, ncases=None, oracle_only=False):
     for k, ((c, b, psd, flux, nucRate, nucRad, dissIdx, dt, currDT), (d, nf, d_nuconly, dtlim, dc, nfc, argmod)) in enumerate(zip(cases, impl)):
         n = c['n']
         nontriv = psd.max() > 0 and np.abs(flux).max() > 0
-        res.case((c['dist'], c['gro'], c['nuc'], n, c['s']), nontriv)
-        res.count('dist:' + c['dist']); res.count('growth:' + c['gro']); res.count('nuc:' + c['nuc'])
+        res.case((c['dist'], c['gro'], c['nuc'], c['hist'], n, c['s']), nontriv)
+        res.count('dist:' + c['dist']); res.count('growth:' + c['gro']); res.count('nuc:' + c['nuc']); res.count('grid-history:' + c['hist'])
         res.count('n<=3' if n <= 3 else 'n<=80' if n <= 80 else 'n>80')
         desc = dict(c, bounds=[float(b[0]), float(b[-1])], nucRate=nucRate, nucRadius=nucRad, dt=dt, dissIdx=dissIdx)
         if k < 2:
